@@ -31,6 +31,8 @@ STRESS_INIS = [
     ("identity-data-sources", 3, 150, 600,
      b'[snoopy]\noutput = file:@D@/out.log\nmessage_format = "%{username} %{eusername} %{group} %{egroup} %{tty_username} %{login} %{hostname} %{filename}"\n'),
     ("datetime", 6, 600, 12000, b'[snoopy]\noutput = devnull\nmessage_format = "%{datetime} %{filename}"\n'),
+    ("datetime-epoch", 6, 800, 12000, b'[snoopy]\noutput = devnull\nmessage_format = "%{datetime:%s} %{datetime:%Z} %{filename}"\n'),
+    ("ipaddr-on-a-terminal", 6, 300, 6000, b'[snoopy]\noutput = devnull\nmessage_format = "%{ipaddr} %{tty} %{login} %{filename}"\n'),
     ("error-in-every-call", 6, 500, 3000,
      b'[snoopy]\noutput = devnull\nerror_logging = yes\nlog_message_max_length = 255\nmessage_format = "%{snoopy_literal:' + b"L" * 300 + b'}%{cmdline}"\n'),
 ]
@@ -104,6 +106,9 @@ def check(run):
             i, (name, ini, ops, k, g) = a
             r = run_mt(run, lib, "fork", 2, 1, "%d,%d" % (k, g), ini, "fk-%s-%d-%d" % (name, k, g), timeout=120)
             o = outcome(r)
+            # outputs that go to the run's own file: the child's call must have left its record ("logs (or drops)": nothing is configured to drop)
+            o["child_record"] = (len([1 for l in r["out"] if b"T0C100 " in l]) if b"out.log" in ini else None)
+            o["parent_record"] = (len([1 for l in r["out"] if b"T0C200 " in l]) if b"out.log" in ini else None)
             if not os.environ.get("VERIF_KEEP"):
                 import shutil
                 shutil.rmtree(r["dir"], ignore_errors=True)
@@ -138,6 +143,11 @@ def check(run):
                      "a second thread has just made the %d-th lock acquisition of its wrapped call (%s, taken in %s; output %s); the child forked at that instant %s "
                      "(5 s alarm) in its own exec call" % (k, {"m": "the repository mutex", "M": "a pthread mutex that is NOT the repository mutex", "f": "a flock"}.get(calib[name][2][k - 1][0], "a lock"),
                                                            calib[name][2][k - 1][1], name, "never returns" if o["child"] == "blocks" else "ends with " + str(o["child"])), i, o)
+            if o["child"] == "completes" and o.get("child_record") == 0:
+                viol("fork:child-no-record", "spec_violation", "the child forked while a second thread was just past the %d-th lock acquisition of its wrapped call (taken in %s; output %s) "
+                     "completes its exec call but leaves no record of it (state inherited from the parent that makes the child's call drop its record)" % (k, calib[name][2][k - 1][1], name), i, o)
+            if o["parent_call"] and o.get("parent_record") == 0:
+                viol("fork:parent-no-record", "spec_violation", "after the fork (window %d, output %s) the forking thread's next exec call leaves no record" % (k, name), i, o)
             if g and o["child"] == "completes" and o["grandchild"] != "completes":
                 viol("fork:grandchild-blocked", "timeout", "the child's own child does not complete its exec call (output %s, window %d): %s" % (name, k, o["grandchild"]), i, o)
             if not o["parent_call"]:
@@ -177,7 +187,7 @@ def check(run):
         # ---------------------------------------------------------------- fork stress: forks taken at arbitrary instants, also inside libc calls no interposer sees
         for (sname, nthr, fq, ft, sini) in STRESS_INIS:
             forks = fq if (quick and ok) else ft          # a broken obligation widens the search
-            r = run_mt(run, lib, "forkstress", nthr, 1, str(forks), sini, "forkstress-" + sname, timeout=600)
+            r = run_mt(run, lib, "forkstress", nthr, 1, str(forks), sini, "forkstress-" + sname, timeout=900, pty_stdin="terminal" in sname)
             fs = [f for f in r["trace"]["other"] if f[0] == "forkstress"]
             done = [f for f in fs if f[1] == "done"]
             bad = [f for f in fs if f[1] == "child"]
@@ -210,7 +220,11 @@ def check(run):
         system_level()
     except CheckError as e:
         # a tree whose proof obligations are broken may also leave the shape the harness is calibrated for: that is a verdict, not a machinery failure
-        if ok:
+        from vlib.conclevel import CalibrationMismatch
+        if isinstance(e, CalibrationMismatch):
+            run.violation("calibration:lock-sequence", "correspondence", str(e),
+                          {"failing_input": {"mode": "trace", "threads": 1, "calls": 2, "what": "lock / unlock / once sequence of two consecutive wrapped calls of one thread"}, "mode": "trace"})
+        elif ok:
             raise
         run.notes.append("system-level stage stopped on this tree: %s" % str(e)[:500])
     plans, calib, results, nwin, ro = st["plans"], st["calib"], st["results"], st["nwin"], st["ro"]
@@ -255,7 +269,7 @@ def replay(run, path):
         print("observed:", o, "fork returned:", ret)
         rc = 0 if (ret and o["child"] == "completes") else 1
     elif rep.get("mode") == "forkstress":
-        r = run_mt(run, lib, "forkstress", rep.get("threads", 3), 1, str(rep.get("forks", 60)), rep["ini"].encode(), "replay", timeout=600)
+        r = run_mt(run, lib, "forkstress", rep.get("threads", 3), 1, str(rep.get("forks", 60)), rep["ini"].encode(), "replay", timeout=900, pty_stdin="terminal" in rep.get("config", ""))
         fs = [f for f in r["trace"]["other"] if f[0] == "forkstress"]
         print("observed:", fs)
         rc = 1 if [f for f in fs if f[1] == "child"] else 0
